@@ -229,7 +229,7 @@ S("C12", "rotation without wrap-around", "R1", (AD, "        for i in range(len(
 S("C12", "default written into the remembered index", "R2", (AD, "        previous_success_index = (\n            self.__previous_success if self.__previous_success else 0\n        )\n\n        for i in range(len(AutoDecoder.payload_decoder_functions)):\n            index = (i + previous_success_index) % len(\n                AutoDecoder.payload_decoder_functions\n            )\n            _, decoder",
     "        if self.__previous_success is None:\n            self.__previous_success = 0\n        previous_success_index = self.__previous_success\n\n        for i in range(len(AutoDecoder.payload_decoder_functions)):\n            index = (i + previous_success_index) % len(\n                AutoDecoder.payload_decoder_functions\n            )\n            _, decoder"))
 S("C12", "name property reads a fixed entry", "R3", (AD, "            decoder_name, _ = AutoDecoder.payload_decoder_functions[\n                self.__previous_success\n            ]", "            decoder_name, _ = AutoDecoder.payload_decoder_functions[0]"))
-S("C12", "handler classes differ between the two methods", "R5", (AD, "                self.__previous_success = index\n                return decoded\n            except (construct.ConstructError, ValueError):\n                pass\n\n        return None\n\n    def decode_message(", "                self.__previous_success = index\n                return decoded\n            except construct.ConstructError:\n                pass\n\n        return None\n\n    def decode_message("))
+S("C12", "handler classes differ between the two methods", "R2|R5", (AD, "                self.__previous_success = index\n                return decoded\n            except (construct.ConstructError, ValueError):\n                pass\n\n        return None\n\n    def decode_message(", "                self.__previous_success = index\n                return decoded\n            except construct.ConstructError:\n                pass\n\n        return None\n\n    def decode_message("))
 N("C12", "start index via `or 0`", (AD, "        previous_success_index = (\n            self.__previous_success if self.__previous_success else 0\n        )\n\n        for i in range(len(AutoDecoder.payload_decoder_functions)):\n            index = (i + previous_success_index) % len(\n                AutoDecoder.payload_decoder_functions\n            )\n            _, decoder",
                                      "        previous_success_index = self.__previous_success or 0\n\n        for i in range(len(AutoDecoder.payload_decoder_functions)):\n            index = (previous_success_index + i) % len(\n                AutoDecoder.payload_decoder_functions\n            )\n            _, decoder"))
 
